@@ -82,12 +82,12 @@ SUM_DIRS = {'a': 0.6 + 0.8j, 'b': -0.6 - 0.8j, 'c': 1j, 'd': 0.8 - 0.6j}
 SUM_DIRS2 = {'a': 1.0, 'b': 1j, 'c': -0.28 + 0.96j, 'd': -1j}
 
 
-def ray_c(cx, name, dirs=SUM_DIRS):
+def ray_c(cx, name, dirs=SUM_DIRS, lo=-CBOX):
     """complex coefficient rho * w: SYMBOLIC real rho in [-CBOX, CBOX] times a fixed unit complex direction w.
     Used where the code under test takes abs()/== 0 of coefficients (LinearDict.clean / __setitem__): a fully
     symbolic re + i*im there yields sqrt(re^2 + im^2) atoms in every path condition, which z3 does not decide in
     reasonable time; on a fixed complex line the same tests are linear."""
-    return cx.real(name + 'r', -CBOX, CBOX) * dirs[name]
+    return cx.real(name + 'r', lo, CBOX) * dirs[name]
 
 
 def choose_letters(cx, name, n, nonidentity=False):
@@ -277,6 +277,7 @@ def obligations(tier):
     def add(name, body, desc, points=None, weight=1, expected=(), opts=None, twin=True):
         o = dict(opts or {})
         o['weight'] = weight
+        o.setdefault('max_paths', 400000)
         obs.append(
             Obligation(
                 name,
@@ -406,7 +407,7 @@ def obligations(tier):
         # documented: multiplied left to right, qubit_pauli_map / coefficient come logically first
         n = 2
         qs = cirq.LineQubit.range(n)
-        l0 = choose_letters(cx, 'P0', n)
+        l0 = [(0, 0), (1, 2), (3, 0), (2, 1)][cx.choose('P0', 4)] if quick else choose_letters(cx, 'P0', n)
         l1 = choose_letters(cx, 'P1', n)
         l2 = choose_letters(cx, 'P2', n)
         a, b, c = sym_c(cx, 'a'), sym_c(cx, 'b'), sym_c(cx, 'c')
@@ -426,7 +427,7 @@ def obligations(tier):
         'mul.constructor_contents',
         contents_body,
         'cirq.PauliString(*contents, qubit_pauli_map=, coefficient=) with numbers, dicts (gate / "X" / "x" / int values), strings, mutable strings and nested lists: ordered matrix product (3 factors, all letters on 2 qubits, symbolic coefficients)',
-        points=pts(3, **{'choose:P0': [6, 11, 1], 'choose:P1': [9, 14, 2], 'choose:P2': [5, 10, 15], 'choose:form': [0, 1, 2]}),
+        points=pts(3, **{'choose:P0': [1, 2, 3], 'choose:P1': [9, 14, 2], 'choose:P2': [5, 10, 15], 'choose:form': [0, 1, 2]}),
         weight=6,
         opts={'max_paths': 40000},
     )
@@ -470,8 +471,6 @@ def obligations(tier):
         n = 1 if single else N2
         qs = cirq.LineQubit.range(n)
         la = choose_letters(cx, 'P', n, nonidentity=True)
-        if not single and not quick:
-            pass
         ci = cx.choose('coef', 4)
         t = cx.real('t', -TBOX, TBOX)
         p = mk_ps(qs, la, UNIT[ci])
@@ -606,7 +605,7 @@ def obligations(tier):
         la, lb = choose_letters(cx, 'P', n), choose_letters(cx, 'Q', n)
         a, b = sym_c(cx, 'a'), sym_c(cx, 'b')
         A, B = PA.string_matrix(la, a), PA.string_matrix(lb, b)
-        kind = cx.choose('kind', 5)
+        kind = cx.choose('kind', 6)
 
         def other():
             if kind == 0:
@@ -617,8 +616,14 @@ def obligations(tier):
                 return [b, {q: PA.LETTER[l] for q, l in zip(qs, lb)}]
             if kind == 3:
                 return [[G[l].on(q) for q, l in zip(qs, lb)], b]
-            return [mk_ps(qs[:1], lb[:1], b), mk_ps(qs[1:], lb[1:], 1)]
+            if kind == 4:
+                return [mk_ps(qs[:1], lb[:1], b), mk_ps(qs[1:], lb[1:], 1)]
+            # a list whose items do NOT commute: documented as their product in list order, Q * X(q0) * Y(q0)
+            return [mk_ps(qs, lb, b), [G[1].on(qs[0]), {qs[0]: 'Y'}]]
 
+        if kind == 5:
+            pad = (0,) * (n - 1)
+            B = PA.matmul(PA.matmul(B, PA.string_matrix((1,) + pad)), PA.string_matrix((2,) + pad))
         AB, BA = PA.matmul(A, B), PA.matmul(B, A)
         m = mk_ps(qs, la, a).mutable_copy()
         r = m.inplace_left_multiply_by(other())
@@ -644,7 +649,7 @@ def obligations(tier):
     add(
         'mutable.inplace_products',
         mutable_body,
-        f'MutablePauliString.inplace_left_multiply_by / inplace_right_multiply_by / *= / constructor / __setitem__ for ALL letter pairs on {N2} qubits, 5 PAULI_STRING_LIKE operand forms, symbolic coefficients; specified through the immutable product: left_multiply_by == self*other (what PauliString.__mul__ is built on), right_multiply_by and *= == other*self',
+        f'MutablePauliString.inplace_left_multiply_by / inplace_right_multiply_by / *= / constructor / __setitem__ for ALL letter pairs on {N2} qubits, 6 PAULI_STRING_LIKE operand forms (incl. nested lists of non-commuting items), symbolic coefficients; specified through the immutable product: left_multiply_by == self*other (what PauliString.__mul__ is built on), right_multiply_by and *= == other*self',
         points=pts(3, **{'choose:P': [6, 11, 1], 'choose:Q': [9, 14, 2], 'choose:kind': [0, 2, 3]}),
         weight=8,
     )
@@ -775,10 +780,8 @@ def obligations(tier):
         if side == 0:
             r, exp = d * p, PA.matmul(A, B)
         elif side == 1:
-            if not any(lb):
-                # an identity PauliString converts to an EMPTY dense string, which `if other := ...` in
-                # BaseDensePauliString.__rmul__ treats as "not a Pauli string" (NotImplemented): outside
-                cx.assume(False)
+            # includes the identity PauliString (empty dense string): fixed defect 1511468 (`if other := ...`
+            # treated it as "not a Pauli string" and PauliString(coefficient=c) * DensePauliString raised TypeError)
             r, exp = p * d, PA.matmul(B, A)
         else:
             r = mk_dps(la + (0,) * (n - n1), a, mutable=True)
@@ -790,7 +793,7 @@ def obligations(tier):
     add(
         'finding.dense_times_pauli_string_coefficient',
         dense_ps_body,
-        'DensePauliString * PauliString, PauliString-side __rmul__ and MutableDensePauliString *= PauliString with SYMBOLIC coefficients on both operands (fixed defect 34ece35: _try_interpret_as_dps dropped the PauliString coefficient)',
+        'DensePauliString * PauliString, PauliString-side __rmul__ and MutableDensePauliString *= PauliString with SYMBOLIC coefficients on both operands (fixed defects 34ece35: _try_interpret_as_dps dropped the PauliString coefficient; 1511468: identity PauliString on the left raised TypeError)',
         points=pts(3, **{'choose:len': [0, 1, 1], 'choose:P': [1, 6, 11], 'choose:Q': [9, 14, 2], 'choose:side': [0, 1, 2]}),
         weight=3,
     )
@@ -848,7 +851,11 @@ def obligations(tier):
         places = list(itertools.permutations(range(n), k))
         pl = places[cx.choose('place', len(places))]
         la = choose_letters(cx, 'P', n)
-        a = sym_c(cx, 'a')
+        if api == 0:
+            a = sym_c(cx, 'a')
+        else:
+            # coefficient kept off the real axis, which removes the coefficient == +-1 forks (covered by conjugated_by)
+            a = cx.real('ar', -CBOX, CBOX) + 1j * cx.real('ai', 0.25, CBOX)
         op = g.on(*[qs[i] for i in pl])
         p = mk_ps(qs, la, a)
         if api == 0:
@@ -904,12 +911,11 @@ def obligations(tier):
         if quick:
             TM = TM[:5] + TM[7:]
         depth = 3
-        idx = [cx.choose(f'op{i}', len(TM)) for i in range(depth)]
-        # list nesting: exhausted in thorough, rotated with the sequence in quick
-        shape = sum(idx) % 3 if quick else cx.choose('shape', 3)
+        idx = [cx.choose(f'op{i}', 3 if (quick and i == 2) else len(TM)) for i in range(depth)]
+        shape = sum(idx) % 3  # list nesting rotated with the sequence (every nesting occurs with every op in every position)
         api = cx.choose('api', 4)
         la = [(1, 0), (2, 3), (3, 2)][cx.choose('P', 3)] if quick else choose_letters(cx, 'P', n)
-        a = sym_c(cx, 'a')
+        a = cx.real('ar', -CBOX, CBOX) + 1j * cx.real('ai', 0.25, CBOX)  # off the real axis: no coefficient == +-1 forks
         ops = [TM[i][0] for i in idx]
         tree = [ops, [ops[0], [ops[1], [ops[2]]]], [[ops[0], ops[1]], ops[2]]][shape]
         # circuit unitary: first op applied first
@@ -929,8 +935,8 @@ def obligations(tier):
     add(
         'conjugate.op_trees',
         tree_body,
-        'conjugated_by / after / inplace_before / inplace_after with OP TREES (flat and nested lists) of 3 operations drawn from ' + ('6' if quick else '8') + ' mutually non-commuting placed Cliffords (H, S, CNOT both ways, sqrt X, ISWAP, ...; every sequence): C = circuit unitary in list order, result C^dagger P C resp. C P C^dagger',
-        points=pts(3, **{'choose:op0': [0, 2, 4], 'choose:op1': [2, 1, 7], 'choose:op2': [1, 0, 3], 'choose:shape': [0, 1, 2], 'choose:api': [0, 1, 3], 'choose:P': [1, 2, 3]}),
+        'conjugated_by / after / inplace_before / inplace_after with OP TREES (flat and nested lists) of 3 operations drawn from ' + ('6' if quick else '8') + ' mutually non-commuting placed Cliffords (H, S, CNOT both ways, sqrt X, ISWAP, ...; every sequence' + ('; third op from the first 3' if quick else '') + '): C = circuit unitary in list order, result C^dagger P C resp. C P C^dagger',
+        points=pts(3, **{'choose:op0': [0, 2, 4], 'choose:op1': [2, 1, 7], 'choose:op2': [1, 0, 2], 'choose:api': [0, 1, 3], 'choose:P': [1, 2, 3]}),
         weight=10,
         opts={'max_paths': 200000},
     )
@@ -938,19 +944,29 @@ def obligations(tier):
     # ================================================================================================
     # F: PauliSum arithmetic
     # ================================================================================================
-    NS = 2 if quick else 2
+    NS = 2
 
     KA, KB, KC, KD = 0.5 - 1.5j, -1.25 + 0.75j, 0.8 + 0.6j, -0.5 + 2.0j  # concrete partners
+
+    SMENU = [(0, 0), (1, 0), (2, 3), (3, 1), (0, 2)]
+
+    def sum_letters(cx):
+        """P from all 16 strings (thorough) / 5 strings (quick); Q from 5 strings or equal to P"""
+        la = SMENU[cx.choose('P', len(SMENU))] if quick else choose_letters(cx, 'P', 2)
+        qi = cx.choose('Q', len(SMENU) + 1)
+        lb = la if qi == len(SMENU) else SMENU[qi]
+        return tuple(la), tuple(lb)
 
     def sum_body(cx, bad=False, part=0):
         n = NS
         qs = cirq.LineQubit.range(n)
-        la, lb = choose_letters(cx, 'P', n), choose_letters(cx, 'Q', n)
-        lc = (3, 1) if quick else choose_letters(cx, 'R', n)
-        dirs = SUM_DIRS if quick or not cx.choose('dirs', 2) else SUM_DIRS2
+        la, lb = sum_letters(cx)
+        lc = (3, 1)
+        dirs = SUM_DIRS if quick or part == 0 or not cx.choose('dirs', 2) else SUM_DIRS2
+        lo = -CBOX if part == 0 else 0.25  # zero coefficients (dropped terms) are forks of part 0 only
         I = np.eye(2**n, dtype=complex)
         if part in (0, 1):
-            a, b, c, s = ray_c(cx, 'a', dirs), ray_c(cx, 'b', dirs), ray_c(cx, 'c', dirs), ray_c(cx, 'd', dirs)
+            a, b, c, s = ray_c(cx, 'a', dirs, lo), ray_c(cx, 'b', dirs, lo), ray_c(cx, 'c', dirs, lo), ray_c(cx, 'd', dirs, lo)
             p, q, r = mk_ps(qs, la, a), mk_ps(qs, lb, b), mk_ps(qs, lc, c)
             A, B, C = PA.string_matrix(la, a), PA.string_matrix(lb, b), PA.string_matrix(lc, c)
             S = p + q
@@ -970,6 +986,8 @@ def obligations(tier):
             cx.close(sum_matrix(S + s, qs), wrong(PA.add(SM, PA.scale(s, I))) if bad else PA.add(SM, PA.scale(s, I)), label='S+scalar')
             cx.close(sum_matrix(s + S, qs), PA.add(SM, PA.scale(s, I)), label='scalar+S')
             cx.close(sum_matrix(s - S, qs), PA.add(PA.scale(s, I), PA.scale(-1, SM)), label='scalar-S')
+            cx.close(sum_matrix(p + s, qs), PA.add(A, PA.scale(s, I)), label='P+scalar')
+            cx.close(sum_matrix(s - p, qs), PA.add(PA.scale(s, I), PA.scale(-1, A)), label='scalar-P')
             cx.close(sum_matrix(cirq.PauliSum.from_pauli_strings([p, q, r]), qs), PA.add(SM, C), label='from_pauli_strings')
             cx.close(sum_matrix(cirq.PauliSum.wrap(p), qs), A, label='wrap(P)')
             T = S.copy()
@@ -986,11 +1004,11 @@ def obligations(tier):
             # fixed complex coefficients (coefficient tests of LinearDict stay linear); both roles are exercised
             symleft = cx.choose('symbolic_side', 2) == 0
             if symleft:
-                a, b = ray_c(cx, 'a', dirs), ray_c(cx, 'b', dirs)
+                a, b = ray_c(cx, 'a', dirs, lo), ray_c(cx, 'b', dirs, lo)
                 c, s = KC, KD
             else:
                 a, b = KA, KB
-                c, s = ray_c(cx, 'c', dirs), ray_c(cx, 'd', dirs)
+                c, s = ray_c(cx, 'c', dirs, lo), ray_c(cx, 'd', dirs, lo)
             p, q, r = mk_ps(qs, la, a), mk_ps(qs, lb, b), mk_ps(qs, lc, c)
             A, B, C = PA.string_matrix(la, a), PA.string_matrix(lb, b), PA.string_matrix(lc, c)
             S = p + q
@@ -1015,7 +1033,7 @@ def obligations(tier):
     def sum_pow_body(cx, bad=False):
         n = NS
         qs = cirq.LineQubit.range(n)
-        la, lb = choose_letters(cx, 'P', n), choose_letters(cx, 'Q', n)
+        la, lb = sum_letters(cx)
         a = ray_c(cx, 'a')
         S = mk_ps(qs, la, a) + mk_ps(qs, lb, KB)
         SM = PA.add(PA.string_matrix(la, a), PA.string_matrix(lb, KB))
@@ -1024,12 +1042,12 @@ def obligations(tier):
         if not quick:
             cx.close(sum_matrix(S**3, qs), PA.matmul(S2, SM), label='S**3')
 
-    SUMD = 'P, Q range over ALL strings on 2 qubits (equal letters merge, cancellation is a fork); coefficients rho*w with SYMBOLIC real rho and fixed complex directions w'
-    add('sum.add_sub', lambda cx, bad=False: sum_body(cx, bad, 0), 'PauliSum P+Q, P-Q, S+-R, R+-S, -S, .matrix(qubits) in both qubit orders. ' + SUMD, points=pts(3, **{'choose:P': [6, 11, 5], 'choose:Q': [9, 14, 5], 'choose:R': [7, 7, 7]}), weight=8, opts={'depth_limit': 4000})
-    add('sum.scalars_views', lambda cx, bad=False: sum_body(cx, bad, 1), 'PauliSum +- scalar, from_pauli_strings, wrap, copy, += / -=, with_qubits. ' + SUMD, points=pts(3, **{'choose:P': [6, 11, 5], 'choose:Q': [9, 14, 5], 'choose:R': [7, 7, 7]}), weight=8, opts={'depth_limit': 4000})
-    add('sum.products_string', lambda cx, bad=False: sum_body(cx, bad, 2), 'PauliSum * and / scalar, PauliSum * PauliString (both sides), *=; one operand symbolic, partner with fixed complex coefficients, both roles. ' + SUMD, points=pts(3, **{'choose:P': [6, 11, 5], 'choose:Q': [9, 14, 5], 'choose:R': [7, 7, 7], 'choose:symbolic_side': [0, 1, 0]}), weight=10, opts={'depth_limit': 4000}, expected=(ZeroDivisionError,))
-    add('sum.products_sum', lambda cx, bad=False: sum_body(cx, bad, 3), 'PauliSum * PauliSum (both orders), **0, **1; one operand symbolic, partner fixed, both roles. ' + SUMD, points=pts(3, **{'choose:P': [6, 11, 5], 'choose:Q': [9, 14, 5], 'choose:R': [7, 7, 7], 'choose:symbolic_side': [0, 1, 0]}), weight=10, opts={'depth_limit': 4000})
-    add('sum.powers', sum_pow_body, '(rho w P + k Q)**2 (**3 in thorough) with one SYMBOLIC coefficient: repeated matrix product; all letter pairs on 2 qubits', points=pts(2, **{'choose:P': [6, 11], 'choose:Q': [9, 14]}), weight=10, opts={'depth_limit': 4000})
+    SUMD = 'P over ' + ('5' if quick else 'all 16') + ' strings on 2 qubits, Q over 5 strings or equal to P (equal letters merge, cancellation rho_a == rho_b is a fork); coefficients rho*w with SYMBOLIC real rho and fixed unit complex directions w'
+    add('sum.add_sub', lambda cx, bad=False: sum_body(cx, bad, 0), 'PauliSum P+Q, P-Q, S+-R, R+-S, -S, .matrix(qubits) in both qubit orders. ' + SUMD, points=pts(3, **{'choose:P': [1, 2, 3], 'choose:Q': [2, 5, 0]}), weight=8, opts={'depth_limit': 4000})
+    add('sum.scalars_views', lambda cx, bad=False: sum_body(cx, bad, 1), 'PauliSum +- scalar, from_pauli_strings, wrap, copy, += / -=, with_qubits. ' + SUMD, points=pts(3, **{'choose:P': [1, 2, 3], 'choose:Q': [2, 5, 0]}), weight=8, opts={'depth_limit': 4000})
+    add('sum.products_string', lambda cx, bad=False: sum_body(cx, bad, 2), 'PauliSum * and / scalar, PauliSum * PauliString (both sides), *=; one operand symbolic, partner with fixed complex coefficients, both roles. ' + SUMD, points=pts(3, **{'choose:P': [1, 2, 3], 'choose:Q': [2, 5, 0], 'choose:symbolic_side': [0, 1, 0]}), weight=10, opts={'depth_limit': 4000}, expected=(ZeroDivisionError,))
+    add('sum.products_sum', lambda cx, bad=False: sum_body(cx, bad, 3), 'PauliSum * PauliSum (both orders), **0, **1; one operand symbolic, partner fixed, both roles. ' + SUMD, points=pts(3, **{'choose:P': [1, 2, 3], 'choose:Q': [2, 5, 0], 'choose:symbolic_side': [0, 1, 0]}), weight=10, opts={'depth_limit': 4000})
+    add('sum.powers', sum_pow_body, '(rho w P + k Q)**2 (**3 in thorough) with one SYMBOLIC coefficient: repeated matrix product', points=pts(2, **{'choose:P': [1, 2], 'choose:Q': [2, 5]}), weight=10, opts={'depth_limit': 4000})
 
     # ================================================================================================
     # G: expectation values on symbolic states
@@ -1113,8 +1131,10 @@ def obligations(tier):
     def expect_sim_body(cx, bad=False):
         n = 2
         qs = cirq.LineQubit.range(n)
-        la, lb = choose_letters(cx, 'P', n), choose_letters(cx, 'Q', n)
-        a, b = cx.real('ar', -CBOX, CBOX), cx.real('br', -CBOX, CBOX)
+        la = choose_letters(cx, 'P', n)
+        lb = [(3, 3), (1, 2), (0, 2)][cx.choose('Q', 3)]
+        # coefficients bounded away from 0 (zero-coefficient forks of PauliSum are covered by sum.add_sub)
+        a, b = cx.real('ar', 0.25, CBOX), cx.real('br', -CBOX, -0.25)
         t, u = cx.real('t', -TBOX, TBOX), cx.real('u', -TBOX, TBOX)
         order = [(0, 1), (1, 0)][cx.choose('order', 2)]
         circuit = cirq.Circuit((cirq.X**t)(qs[0]), cirq.CNOT(qs[0], qs[1]), (cirq.Y**u)(qs[1]))
@@ -1122,12 +1142,12 @@ def obligations(tier):
         psi[0, 0] = 1
         for Mx, pos in ((D.X(t), [0]), (D.CX(1.0), [0, 1]), (D.Y(u), [1])):
             psi = EM.apply_matrix_to_axes(Mx, psi, pos)
-        obs_ = [mk_ps(qs, la, a) + mk_ps(qs, lb, b), mk_ps(qs, lb, b)]
+        obs_ = [mk_ps(qs, la, a) + mk_ps(qs, lb, b), mk_ps(qs, la, b)]
         sim = cirq.Simulator(dtype=np.complex128)
         got = sim.simulate_expectation_values(circuit, obs_, qubit_order=[qs[order[0]], qs[order[1]]])
         M0 = PA.add(PA.string_matrix(la, a), PA.string_matrix(lb, b))
         e0 = PA.expectation_sv(psi.reshape(-1), M0)
-        e1 = PA.expectation_sv(psi.reshape(-1), PA.string_matrix(lb, b))
+        e1 = PA.expectation_sv(psi.reshape(-1), PA.string_matrix(la, b))
         cx.close(got[0], e0 + 0.01 if bad else e0, label='simulate_expectation_values[0]')
         cx.close(got[1], e1, label='simulate_expectation_values[1]')
 
@@ -1135,7 +1155,7 @@ def obligations(tier):
         'expect.simulator',
         expect_sim_body,
         'Simulator.simulate_expectation_values of X**t, CNOT, Y**u (SYMBOLIC t, u) for PauliSum and PauliString observables with symbolic real coefficients, both qubit orders, vs documented matrices applied to |00> and explicit sums',
-        points=pts(2, **{'choose:P': [6, 11], 'choose:Q': [9, 14], 'choose:order': [1, 0]}),
+        points=pts(2, **{'choose:P': [6, 11], 'choose:Q': [0, 1], 'choose:order': [1, 0], 'br': [-0.75, -1.5]}),
         weight=12,
     )
 
@@ -1175,19 +1195,40 @@ def obligations(tier):
         weight=12,
     )
 
+    def phasor_identity_body(cx, bad=False):
+        n = cx.choose('n', 2) + 1
+        qs = cirq.LineQubit.range(n)
+        sign = [1, -1][cx.choose('sign', 2)]
+        t, u = cx.real('t', -TBOX, TBOX), cx.real('u', -TBOX, TBOX)
+        ph = cirq.PauliStringPhasor(cirq.PauliString(coefficient=sign), qubits=qs, exponent_neg=t, exponent_pos=u)
+        # +I has only the +1 eigenspace (phase e^{i pi u}), -I only the -1 eigenspace (phase e^{i pi t})
+        phase = D.ph(u) if sign == 1 else D.ph(t)
+        exp = PA.scale(phase, np.eye(2**n, dtype=complex))
+        cx.close(cirq.unitary(ph), wrong(exp) if bad else exp, tol=DECOMP_TOL, label='unitary(phasor of +-identity string)')
+        cx.close(unitary_via_decompose(ph, list(qs)), exp, tol=DECOMP_TOL, label='decompose(phasor of +-identity string) product')
+
+    add(
+        'finding.phasor_identity_string',
+        phasor_identity_body,
+        'PauliStringPhasor(+-identity string, qubits=1..2 explicit qubits, exponent_neg=t, exponent_pos=u), SYMBOLIC t, u: a pure global phase e^(i pi u) resp. e^(i pi t) (fixed defect cf7e109: the parity construction ran on qubit 0)',
+        points=pts(3, **{'choose:n': [0, 1, 1], 'choose:sign': [0, 1, 0], 't': [0.25, 1.0, 0.5], 'u': [0.5, -0.7, 0.0]}),
+    )
+
     def phasor_ops_body(cx, bad=False):
         n = 2
         qs = cirq.LineQubit.range(n)
         la = choose_letters(cx, 'P', n, nonidentity=True)
-        t, u, v = cx.real('t', -TBOX, TBOX), cx.real('u', -TBOX, TBOX), cx.real('v', -2, 2)
+        t, u = cx.real('t', -TBOX, TBOX), cx.real('u', -TBOX, TBOX)
         p = mk_ps(qs, la, 1)
         ph = cirq.PauliStringPhasor(p, exponent_neg=t, exponent_pos=u)
         which = cx.choose('which', 3)
         if which == 0:
+            v = [2, -1, 0.5, -1.5][cx.choose('v', 4)]
             r = ph**v
             exp = PA.phasor(la, D.ph(_canon(cx, u) * v), D.ph(_canon(cx, t) * v))
             cx.close(cirq.unitary(r), wrong(exp) if bad else exp, tol=DECOMP_TOL, label='phasor**v')
         elif which == 1:
+            v = cx.real('v', -2, 2)
             ph2 = cirq.PauliStringPhasor(p, exponent_neg=v, exponent_pos=0.25)
             r = ph.merged_with(ph2)
             exp = PA.phasor(la, D.ph(u + 0.25), D.ph(t + v))
@@ -1204,53 +1245,59 @@ def obligations(tier):
     add(
         'phasor.pow_merge_conjugate',
         phasor_ops_body,
-        'PauliStringPhasor ** v (powers act on the canonicalised exponents), merged_with, conjugated_by(Clifford) with SYMBOLIC exponents',
-        points=pts(3, **{'choose:P': [1, 5, 8], 'choose:which': [0, 1, 2], 'choose:gate': [0, 2, 3], 'v': [0.5, -1.0, 1.0]}),
+        'PauliStringPhasor ** v for v in (2, -1, 0.5, -1.5) (powers act on the canonicalised exponents), merged_with, conjugated_by(Clifford) with SYMBOLIC exponents',
+        points=pts(3, **{'choose:P': [1, 5, 8], 'choose:which': [0, 1, 2], 'choose:gate': [0, 2, 3], 'choose:v': [2, 0, 1], 'v': [0.5, -1.0, 1.0]}),
         weight=12,
     )
 
     # ================================================================================================
     # I: PauliSumExponential
     # ================================================================================================
+    PSE_K = (0.75, -1.25)
+
     def pse_body(cx, bad=False):
         n = 2
         qs = cirq.LineQubit.range(n)
-        la, lb = choose_letters(cx, 'P', n), choose_letters(cx, 'Q', n)
+        la = choose_letters(cx, 'P', n)
+        lb = [(1, 1), (3, 0), (2, 3), (0, 1), (3, 3), (2, 0)][cx.choose('Q', 6)] if quick else choose_letters(cx, 'Q', n)
         if la == lb or not any(la) or not any(lb):
             cx.assume(False)
         anti = cx.choose('anti', 2)
-        a, b = cx.real('ar', -CBOX, CBOX), cx.real('br', -CBOX, CBOX)
-        e = cx.real('t', -TBOX, TBOX)
+        # the rotation angle exponent*coefficient is kept linear in ONE symbolic quantity: either the
+        # coefficients are symbolic (exponent = default 1 / fixed -0.5) or the exponent is (fixed coefficients)
+        mode = cx.choose('symbolic', 3)
+        if mode == 0:
+            a, b = cx.real('ar', 0.25, CBOX), cx.real('br', -CBOX, -0.25)  # away from the atol=1e-8 classification
+            e = 1
+        elif mode == 1:
+            a, b = cx.real('ar', -CBOX, -0.25), cx.real('br', 0.25, CBOX)
+            e = -0.5
+        else:
+            a, b = PSE_K
+            e = cx.real('t', -TBOX, TBOX)
         unit = 1j if anti else 1
         S = mk_ps(qs, la, unit * a) + mk_ps(qs, lb, unit * b)
         commuting = PA.commute(la, lb)
         try:
-            E = cirq.PauliSumExponential(S, exponent=e)
+            E = cirq.PauliSumExponential(S, exponent=e) if mode else cirq.PauliSumExponential(S)
         except ValueError:
-            # documented: only commuting terms.  (a == 0 or b == 0 removes a term, then anything commutes)
             cx.check(not commuting, label='ValueError only for non-commuting terms')
             return
-        if not commuting:
-            # accepted although letters anticommute: only possible if a term vanished (coefficient 0)
-            cx.check(len(S) < 2, label='non-commuting sum accepted')
+        cx.check(commuting, label='non-commuting sum must be rejected')
         # Hermitian: exp(i e S); anti-Hermitian: exp(e S) with S = i(aP + bQ): both = prod exp(i e c_k P_k)
         tot = np.eye(2**n, dtype=complex)
         for f in E:
             cx.check(isinstance(f, cirq.PauliStringPhasor), label='factor type')
             U = PA.embed(cirq.unitary(f), [qs.index(q) for q in f.qubits], n)
             tot = PA.matmul(U, tot)
-        exp = np.eye(2**n, dtype=complex)
-        present = {letters_of(t_, qs) for t_ in S}
-        for l, c in ((la, a), (lb, b)):
-            if tuple(l) in present:
-                exp = PA.matmul(PA.rotation(l, _cos(e * c), _sin(e * c)), exp)
+        exp = PA.matmul(PA.rotation(la, _cos(e * a), _sin(e * a)), PA.rotation(lb, _cos(e * b), _sin(e * b)))
         cx.close(tot, wrong(exp) if bad else exp, tol=DECOMP_TOL, label='product of rotation factors')
 
     add(
         'sum_exponential.factors',
         pse_body,
-        'PauliSumExponential(aP + bQ resp. i(aP + bQ), exponent=e) with SYMBOLIC real a, b (negative values included), e: ValueError exactly for non-commuting terms; product of the PauliStringPhasor factors it iterates == prod_k (cos(e c_k) I + i sin(e c_k) P_k), exactly (not only up to phase); all letter pairs on 2 qubits, Hermitian and anti-Hermitian',
-        points=pts(3, **{'choose:P': [5, 15, 1], 'choose:Q': [10, 5, 4], 'choose:anti': [0, 1, 1], 'ar': [0.5, -1.25, 1.0], 'br': [-0.75, 0.5, -0.5]}),
+        'PauliSumExponential(aP + bQ resp. i(aP + bQ), exponent=e) with SYMBOLIC real a, b of both signs (|.| >= 0.25; e = default 1 or -0.5) or SYMBOLIC e (a, b = 0.75, -1.25): ValueError exactly for non-commuting terms; product of the PauliStringPhasor factors it iterates == prod_k (cos(e c_k) I + i sin(e c_k) P_k), exactly (not only up to phase); P over all strings on 2 qubits, Q over ' + ('6 strings' if quick else 'all strings') + ', Hermitian and anti-Hermitian',
+        points=pts(3, **{'choose:P': [5, 15, 1], 'choose:Q': [0, 4, 3], 'choose:anti': [0, 1, 1], 'choose:symbolic': [0, 1, 2], 'ar': [0.5, -1.25, 1.0], 'br': [-0.75, 0.5, -0.5]}),
         weight=14,
     )
 
@@ -1258,9 +1305,7 @@ def obligations(tier):
         n = 2
         qs = cirq.LineQubit.range(n)
         case = cx.choose('case', 3)
-        a, b = cx.real('ar', -CBOX, CBOX), cx.real('br', -CBOX, CBOX)
-        cx.assume(a >= 0.25)
-        cx.assume(b >= 0.25)
+        a, b = PSE_K
         e = cx.real('t', -TBOX, TBOX)
         la, lb = [((0, 1), (3, 0)), ((3, 3), (1, 1)), ((3, 0), (3, 3))][case]
         # first term listed first: X(q1) + Z(q0) ; Z0 Z1 + X0 X1 ; Z0 + Z0 Z1
@@ -1275,7 +1320,7 @@ def obligations(tier):
         'finding.sum_exponential_matrix',
         pse_matrix_body,
         'PauliSumExponential.matrix() / cirq.unitary must be exp(i e S) in the order of .qubits: OPEN defect - the term unitaries are kron-ed in term order (wrong qubit order for X(q1)+Z(q0), wrong shape 16x16 / 8x8 when terms share qubits)',
-        points=pts(3, **{'choose:case': [0, 1, 2], 'ar': [0.5, 1.25, 1.0], 'br': [0.75, 0.5, 0.5]}),
+        points=pts(0),
         twin=False,
     )
     return obs
@@ -1298,9 +1343,7 @@ def _canon(cx, h):
     if cx.mode == 'concrete':
         h = h % 2
         return h - 2 if h > 1 else h
-    import cirq
-
-    # symbolic: reuse of the real helper would not be independent; compute with the same definition
+    # symbolic: written from the documented definition (not a call of cirq.value.canonicalize_half_turns)
     r = h % 2
     return r - 2 if bool(r > 1) else r
 
@@ -1316,11 +1359,28 @@ LEVEL = (
 
 
 def main(tier, seed=0, replay=None, only=None, procs=None):
+    q = tier == 'quick'
     bounds = {
-        'coefficient_box': [-CBOX, CBOX],
-        'exponent_box': [-TBOX, TBOX],
-        'state_entries_box': [-1, 1],
+        'symbolic': 'complex coefficients (re, im in [-2, 2]); exponents / rotation angles in [-4, 4]; all state-vector amplitudes (re, im in [-1, 1]) and all entries of a Hermitian matrix handed in as density matrix; gate exponents t, u of the simulated circuit; Pauli masks of _vectorized_pauli_mul_phase as solver integers in 0..3',
+        'enumerated_selectors': 'Pauli letter per qubit of every PauliString / DensePauliString (bounded exhaustive), qubit orders and qubit maps (all permutations), Clifford conjugator and placement, op-tree sequence and nesting, operand form (PauliString / mutable / dict / op list / nested list), mutability, integer powers',
+        'qubits': {'matrix/relabel': 3 if q else 4, 'binary laws (products, commutes, mutable)': 2 if q else 3, 'conjugation': 2 if q else 3, 'dense lengths': '1..2' if q else '1..3', 'expectation states': 2 if q else 3, 'phasors': 2 if q else 3, 'sums / exponentials': 2},
+        'clifford_menu': 'all 24 single-qubit Cliffords (from_xz_map), H, S, S**-1, X**+-0.5, Y**+-0.5, X, Y, Z, CZ, CNOT, CY, SWAP, ISWAP, ISWAP**-1, XX**0.5, YY**0.5, ZZ**-0.5; every placement; op trees: all sequences of 3 from ' + ('6 (third from 3)' if q else '8') + ' placed non-commuting Cliffords, flat and nested lists',
+        'pauli_sum_coefficients': 'rho*w with symbolic real rho in [-2,2] (>= 0.25 outside sum.add_sub) and fixed unit complex directions w (0.6+0.8i, -0.6-0.8i, i, 0.8-0.6i' + ('' if q else '; second set 1, i, -0.28+0.96i, -i outside sum.add_sub') + '); in products exactly one operand is symbolic, its partner has fixed complex coefficients (both roles run); sums of <= 3 terms; P over ' + ('5' if q else '16') + ' strings, Q over 5 strings or equal to P',
+        'unit_coefficients': 'PauliString.__pow__ with real exponent needs cmath.polar of the coefficient: coefficient from (1,-1,i,-i), exponent symbolic; unitary/decompose/apply_unitary with symbolic unit coefficient exp(i pi t)',
+        'sum_exponential': 'two commuting/non-commuting terms; rotation angle linear in one symbolic quantity: symbolic coefficients (|c| >= 0.25, both signs; exponent default 1 or -0.5) or symbolic exponent (coefficients 0.75, -1.25); Hermitian and anti-Hermitian',
+        'power_convention': '(cP)**t := c**t P**t with c**t = exp(i t Arg c) and P**t = P+ + e^{i pi t} P- (Cirq\'s documented Pauli power); equals the matrix power for every integer t',
+        'mutable_spec': 'inplace_left_multiply_by == self*other (the immutable product PauliString.__mul__ is built on), inplace_right_multiply_by and *= == other*self; the method names / docstrings say the opposite (reported, naming only)',
         'tolerance': 1e-7,
-        'outside': [],
+        'decomposition_tolerance': DECOMP_TOL,
+        'outside': [
+            'letters as solver variables (PauliString stores gate objects in dicts)',
+            'fully symbolic complex coefficients inside PauliSum / LinearDict (abs() and == 0 tests yield sqrt(re^2+im^2) atoms in every path condition; z3 does not decide them in time): replaced by symbolic magnitude on fixed complex directions',
+            'PauliString.__pow__ / __rpow__ with symbolic coefficient modulus or symbolic base (cmath.polar, math.log of symbolic values)',
+            'np.exp(PauliString) spelling (selected by `ufunc == np.exp`, the shimmed np is not that ufunc object); `math.e ** P` is the same code and is run',
+            'validation of states (check_preconditions=True: norm / eigenvalue tests via sqrt and LAPACK) - kernels are reached through the public methods with check_preconditions=False; simulate_expectation_values uses the default validation on states normalised by construction',
+            'PauliSumExponential.matrix() beyond finding.sum_exponential_matrix (open defect); exponentials are compared as the product of the factors they iterate',
+            'zero-qubit PauliStringPhasor(cirq.PauliString(), exponent_pos=u) without explicit qubits: decomposes to [] (its global phase e^{i pi u} is lost; reported, left open)',
+            'sparse_matrix (scipy), from_boolean_expression (sympy), ProjectorString/ProjectorSum, PauliMeasurementGate, PauliInteractionGate (C03), work/observable_* grouping and measurement, pauli_string_decomposition.unitary_to_pauli_string, LinearCombinationOfGates/Operations, qubit counts beyond those listed, complex64',
+        ],
     }
     return run_check(PID, tier, 'checks.C14', SHIMS, LEVEL, BASE_ASSUMPTIONS, bounds, seed=seed, replay=replay, only=only, procs=procs)
